@@ -23,7 +23,8 @@ StepName = z3.Function('StepName', Addr, Val)
 rank = z3.Function('rank', Addr, z3.IntSort())
 VarE = z3.Function('VarE', Str, Str, Val)              # the expression a variable resolves to for an asset type
 AssetByName = z3.Function('AssetByName', Str, Val)     # language-graph asset with that name (None if absent)
-pick = z3.Function('pick', SetA, Addr)
+VarAny = z3.Function('VarAny', Str, Val)                # the expression variable `name` resolves to for every live asset (uniform resolution)
+SetOf = z3.Function('SetOf', BagSort, SetA)            # the set of references held by a list (given by its bag)
 K = lambda s_: VStr(str_const(s_))
 S = str_const
 
@@ -52,28 +53,49 @@ def sem_axioms(h: H, M):
     D('subType', ty == S('subType'), FA([y], z3.Select(Sem(e, X), y) == z3.And(
         z3.Select(Sem(s, X), y), ANC(v_a(AssetByName(h.f('type', y))), v_a(AssetByName(v_s(h.val(e, K('subType'))))))), [z3.Select(Sem(e, X), y)]), [Sem(e, X)])
     D('variable', ty == S('variable'), z3.And(
-        z3.Implies(z3.Exists([x], z3.Select(X, x)), z3.And(z3.Select(X, pick(X)),
-                                                           Sem(e, X) == Sem(v_a(VarE(h.f('type', pick(X)), ename(h, e))), X))),
+        z3.Implies(z3.Exists([x], z3.Select(X, x)), Sem(e, X) == Sem(v_a(VarAny(ename(h, e))), X)),
         z3.Implies(z3.Not(z3.Exists([x], z3.Select(X, x))), Sem(e, X) == z3.K(Addr, z3.BoolVal(False)))), [Sem(e, X)])
+    # lemma SEM-STRICT (proved separately by induction on rank, see lemma_sem_strict): nothing is reached from the empty set
+    ax.append(('Sem.strict', FA([e], z3.Implies(NoTrans(e), Sem(e, z3.K(Addr, z3.BoolVal(False))) == z3.K(Addr, z3.BoolVal(False))),
+                                [Sem(e, z3.K(Addr, z3.BoolVal(False)))])))
     # step names / shape / rank
     t = A('t!sx')
     sty = z3.Const('sty!sx', Str)
     ax += [
         ('StepName', FA([e], StepName(e) == z3.If(ty == S('attackStep'), h.val(e, K('name')),
-                                          z3.If(ty == S('collect'), StepName(r), VNone)), [StepName(e)])),
-        ('EndsInStep', FA([e], EndsInStep(e) == z3.Or(ty == S('attackStep'), z3.And(ty == S('collect'), EndsInStep(r))), [EndsInStep(e)])),
+                                          z3.If(ty == S('collect'), StepName(r),
+                                                z3.If(ty == S('variable'), StepName(v_a(VarAny(ename(h, e)))), VNone))), [StepName(e)])),
+        ('EndsInStep', FA([e], EndsInStep(e) == z3.Or(ty == S('attackStep'), z3.And(ty == S('collect'), EndsInStep(r)),
+                                                      z3.And(ty == S('variable'), EndsInStep(v_a(VarAny(ename(h, e)))))), [EndsInStep(e)])),
         ('NoTrans', FA([e], z3.Implies(NoTrans(e), z3.And(
             ty != S('transitive'),
             z3.Implies(z3.Or(ty == S('union'), ty == S('intersection'), ty == S('difference'), ty == S('collect')), z3.And(NoTrans(l), NoTrans(r))),
             z3.Implies(ty == S('subType'), NoTrans(s)))), [NoTrans(e)])),
-        ('NoTrans.var', FA([e, sty], z3.Implies(z3.And(NoTrans(e), ty == S('variable')), NoTrans(v_a(VarE(sty, ename(h, e))))), [(NoTrans(e), VarE(sty, ename(h, e)))])),
+        ('NoTrans.var', FA([e], z3.Implies(z3.And(NoTrans(e), ty == S('variable')), NoTrans(v_a(VarAny(ename(h, e))))), [NoTrans(e)])),
         ('rank', FA([e], z3.And(rank(e) >= 0,
                                z3.Implies(z3.Or(ty == S('union'), ty == S('intersection'), ty == S('difference'), ty == S('collect')),
                                           z3.And(rank(l) < rank(e), rank(r) < rank(e))),
                                z3.Implies(ty == S('subType'), rank(s) < rank(e))), [rank(e)])),
-        ('rank.var', FA([e, sty], z3.Implies(ty == S('variable'), rank(v_a(VarE(sty, ename(h, e)))) < rank(e)), [VarE(sty, ename(h, e))])),
+        ('rank.var', FA([e], z3.Implies(ty == S('variable'), rank(v_a(VarAny(ename(h, e)))) < rank(e)), [rank(e)])),
     ]
     return ax
+
+
+def lemma_sem_strict(reg):
+    """SEM-STRICT: Sem(e, {}) == {} for transitive-free e — inductive step: from the definitions and the hypothesis for
+    every expression of smaller rank"""
+    hs = spec_heap(reg.schema)
+    M = z3.Const('M!ss', Addr)
+    EMPTY = z3.K(Addr, z3.BoolVal(False))
+    e0, e1 = z3.Const('e!ss', Addr), A('e1!ss')
+    defs = [f for nm, f in sem_axioms(hs, M) if nm != 'Sem.strict']
+    ih = FA([e1], z3.Implies(z3.And(rank(e1) < rank(e0), NoTrans(e1), hs.cls(e1) == CLS_DICT, hs.has(e1, K('type'))), Sem(e1, EMPTY) == EMPTY), [Sem(e1, EMPTY)])
+    y = z3.Const('y!ss', Addr)
+    hyps = defs + [ih, wf_expr(hs), NoTrans(e0), hs.cls(e0) == CLS_DICT, hs.has(e0, K('type')),
+                   FA([z3.Const('n!ss', Str)], z3.Implies(is_VRef(VarAny(z3.Const('n!ss', Str))), z3.And(
+                       hs.cls(v_a(VarAny(z3.Const('n!ss', Str)))) == CLS_DICT, hs.has(v_a(VarAny(z3.Const('n!ss', Str))), K('type')))),
+                      [VarAny(z3.Const('n!ss', Str))])]
+    return [('step', hyps, z3.Not(z3.Select(Sem(e0, EMPTY), y)))]
 
 
 def wf_expr(h: H):
@@ -84,6 +106,7 @@ def wf_expr(h: H):
     hk = lambda k: h.has(e, K(k))
     return FA([e], z3.Implies(z3.And(h.cls(e) == CLS_DICT, hk('type')), z3.And(
         is_VStr(h.val(e, K('type'))),
+        z3.Or(*[ty == S(k_) for k_ in ('attackStep', 'union', 'intersection', 'difference', 'collect', 'field', 'variable', 'subType', 'transitive')]),
         z3.Implies(z3.Or(ty == S('union'), ty == S('intersection'), ty == S('difference'), ty == S('collect')),
                    z3.And(hk('lhs'), hk('rhs'), isd(h.val(e, K('lhs'))), isd(h.val(e, K('rhs'))),
                           h.has(sub_e(h, e, 'lhs'), K('type')), h.has(sub_e(h, e, 'rhs'), K('type')))),
@@ -97,10 +120,17 @@ def HSc(c):
     return spec_heap(c.old.schema)
 
 
+def setof_axiom():
+    B = z3.Const('B!so', BagSort)
+    x = A('x!so')
+    return FA([B, x], z3.Select(SetOf(B), x) == (z3.Select(B, VRef(x)) > 0), [z3.Select(SetOf(B), x)])
+
+
 def set_of_list(h: H, L, X):
     x = A('x!sl')
     v = z3.Const('v!sl', Val)
-    return z3.And(FA([x], z3.Select(X, x) == (h.cnt(L, x) > 0), [z3.Select(X, x)]),
+    return z3.And(X == SetOf(h.bagof(L)), setof_axiom(),
+                  FA([x], z3.Select(X, x) == (h.cnt(L, x) > 0), [z3.Select(X, x)]),
                   FA([x], z3.Select(X, x) == (h.cnt(L, x) > 0), [h.cnt(L, x)]),
                   FA([v], z3.Implies(h.bag(L, v) > 0, is_VRef(v)), [h.bag(L, v)]))
 
@@ -133,6 +163,7 @@ def asset_by_name_def(h: H, LGr):
 
 
 def install(reg: Registry):
+    reg.add_lemma('SEM-STRICT.nothing-is-reached-from-the-empty-set', ('C01',), lemma_sem_strict)
     # ---- LanguageGraph.get_asset_by_name (C15, C01)
     def gabn_inv(c: LCtx):
         a = A('a!gi2')
@@ -167,9 +198,11 @@ def install(reg: Registry):
             ('set-operands-are-asset-expressions', FA([eq], z3.Implies(
                 z3.Or(etype(hs, eq) == S('union'), etype(hs, eq) == S('intersection'), etype(hs, eq) == S('difference')),
                 z3.And(z3.Not(EndsInStep(sub_e(hs, eq, 'lhs'))), z3.Not(EndsInStep(sub_e(hs, eq, 'rhs'))))), [etype(hs, eq)])),
-            ('variables-resolve-uniformly', FA([x1, x2, nn], z3.Implies(
-                z3.And(hs.cnt(hs.f('assets', c.model), x1) > 0, hs.cnt(hs.f('assets', c.model), x2) > 0),
-                VarE(hs.f('type', x1), nn) == VarE(hs.f('type', x2), nn)), [(VarE(hs.f('type', x1), nn), VarE(hs.f('type', x2), nn))])),
+            ('variables-resolve-uniformly', FA([x1, nn], z3.Implies(hs.cnt(hs.f('assets', c.model), x1) > 0,
+                                                                    VarE(hs.f('type', x1), nn) == VarAny(nn)), [VarE(hs.f('type', x1), nn)])),
+            ('subtypes-exist', FA([eq], z3.Implies(etype(hs, eq) == S('subType'), is_VRef(AssetByName(v_s(hs.val(eq, K('subType')))))), [etype(hs, eq)])),
+            ('variable-targets-are-dicts', FA([nn], z3.Implies(is_VRef(VarAny(nn)), z3.And(
+                hs.cls(v_a(VarAny(nn))) == CLS_DICT, hs.has(v_a(VarAny(nn)), K('type')), v_a(VarAny(nn)) >= 0, v_a(VarAny(nn)) < hs.alloc)), [VarAny(nn)])),
             ('variable-expressions-are-dicts', FA([tt, nn], z3.Implies(
                 is_VRef(VarE(tt, nn)),
                 z3.And(hs.cls(v_a(VarE(tt, nn))) == CLS_DICT, hs.has(v_a(VarE(tt, nn)), K('type')),
@@ -189,11 +222,12 @@ def install(reg: Registry):
         y = A('y!pe')
         v = z3.Const('v!pe', Val)
         return [
+            ('semantics-set', SetOf(h.bagof(R)) == Sem(e, c.X)),
             ('semantics', FA([y], (h.cnt(R, y) > 0) == z3.Select(Sem(e, c.X), y), [h.cnt(R, y)])),
             ('semantics2', FA([y], (h.cnt(R, y) > 0) == z3.Select(Sem(e, c.X), y), [z3.Select(Sem(e, c.X), y)])),
             ('elems', FA([v], z3.Implies(h.bag(R, v) > 0, is_VRef(v)), [h.bag(R, v)])),
             ('live', FA([y], z3.Implies(h.cnt(R, y) > 0, HSc(c).cnt(HSc(c).f('assets', c.model), y) > 0), [h.cnt(R, y)])),
-            ('step-name', to_val(c.result.elts[1]) == StepName(e)),
+            ('step-name', z3.Implies(h.len(R) > 0, to_val(c.result.elts[1]) == StepName(e))),     # the name only matters when something is reached
             ('fresh-or-argument', z3.And(z3.Or(z3.And(R >= o.alloc, R < h.alloc), R == c.target_assets), h.cls(R) == CLS_LIST,
                                          z3.Implies(z3.Not(EndsInStep(e)), R >= o.alloc))),
             ('nothing-old-is-written', old_unchanged(o, h)),
@@ -201,9 +235,7 @@ def install(reg: Registry):
 
     def bind_X(ex, st, args):
         """ghost: the set of the list passed as target_assets"""
-        X = ex.fresh(SetA, 'Xset')
-        st.assume(set_of_list(st.h, args['target_assets'].t, X))
-        return X
+        return SetOf(st.h.bagof(args['target_assets'].t))
 
     def acc_inv(kind):
         def inv(c: LCtx):
@@ -289,9 +321,6 @@ def install(reg: Registry):
         ]
 
     triv = LoopSpec(lambda c: [], stable_iter=False)
-    import os
-    if not os.environ.get('PYVC_WIP'):
-        return          # work in progress (427/474 obligations discharge): not registered until every obligation discharges
     reg.add(Contract(MG + ':_process_step_expression',
                      {'lang_graph': Obj(LG), 'model': Obj(MODEL), 'target_assets': List(Obj(ASSET)), 'step_expression': EXPR},
                      returns=T('tuple', elts=[List(Obj(ASSET)), T('str', opt=True)]), ghosts={'X': SetA},
@@ -303,7 +332,10 @@ def install(reg: Registry):
                             3: LoopSpec(variable_inv), 4: LoopSpec(field_inv),
                             5: LoopSpec(lambda c: [], variant=lambda c: z3.IntVal(0)), 6: triv, 7: triv,
                             8: LoopSpec(sub_collect_inv), 9: LoopSpec(sub_filter_inv)},
-                     props=('C01',),
+                     call_lemmas={'_get_variable_for_asset_type_by_name': lambda c: [
+                         ('uniform-resolution', VarE(c.asset_type, c.variable_name) == VarAny(c.variable_name)),
+                         ('resolved', c.res == v_a(VarAny(c.variable_name)))]},
+                     props=('C01',), no_merge=True,
                      note='deductive for expressions without the transitive operator (requires NoTrans); the transitive arm is decided by '
                           'the bounded floor of C01'))
 
